@@ -177,6 +177,12 @@ pub fn rec_serde(a: &Args, out: &mut Out) {
         }
         if let Some(Message::Msg1029(t)) = template(&mut r, 1029) {
             let mut t = t.clone();
+            // more characters than message 1029 can announce (128..255) are still a value of the text type
+            for n in [128usize, 200, 255] {
+                let mut t2 = t.clone();
+                t2.text_str = ArrayString::from("x".repeat(n - 1 - k % 2).as_str());
+                emit(out, &Message::Msg1029(t2), "utf8-text");
+            }
             let txt: String = match k % 4 {
                 0 => "é".repeat(127),
                 1 => "a".repeat(127),
